@@ -137,6 +137,12 @@ func scenarioClient(sp Spec, oc *Outcome) {
 	case <-time.After(6 * time.Second):
 		oc.Notes = append(oc.Notes, "trigger-timeout")
 	}
+	if sp.ServerKind == "blockdial" {
+		// Close must land while the connect is pending
+		for i := 0; i < 2000 && !p.dialBlocked.Load(); i++ {
+			time.Sleep(time.Millisecond)
+		}
+	}
 	if sp.ServerKind == "stall" {
 		stall.Store(true) // the server stops reading: the client's socket buffer and write queue fill up
 	}
@@ -187,6 +193,15 @@ func scenarioClient(sp Spec, oc *Outcome) {
 	wgW.Wait()
 	<-p.done
 	p.closeBlockers()
+	if sp.ServerKind == "blockdial" {
+		if v, ok := p.dialEnd.Load().(string); ok {
+			oc.DialEnd = v
+		}
+		oc.APIErr = len(p.errs) > 0
+		if !p.dialBlocked.Load() {
+			oc.Notes = append(oc.Notes, "the connect was never reached")
+		}
+	}
 
 	if fx != nil {
 		fx.srv.Close()
